@@ -125,6 +125,78 @@ def gen_project(rng, variant=0):
     return files
 
 
+def gen_fw_project(rng):
+    """The link-graph family: a small project (cheap to configure, so that it is run under many hash seeds) whose link
+    steps merge what SEVERAL static libraries forward.  Four to six static libraries with drawn names each forward something
+    of their own (a library they depend on, link options, a package, or several of these); static libraries of a second
+    level depend on two or three of them; executables, shared libraries and pkg_config() take two to four libraries of
+    either level, in a drawn order.  The merged lists end up in the link lines, the dependency lists, the rpaths and
+    Libs.private - in the order the script gives, whatever the hash seed."""
+    def nm(prefix):
+        return prefix + ''.join(rng.choice('abcdefghkmnpqrstuvwxyz') for _ in range(rng.randint(2, 5)))
+    files = {'main.c': 'int main(void) { return 0; }\n'}
+    L = ["project('p13fw', version='0.4')", "zlib = package('zlib')", "z3 = package('z3')"]
+    used = set()
+
+    def fresh(prefix):
+        while True:
+            n = nm(prefix)
+            if n not in used:
+                used.add(n)
+                return n
+
+    def src():
+        f = 'src/%s.c' % fresh('f')
+        files[f] = 'int %s(void) { return 1; }\n' % os.path.basename(f)[:-2]
+        return f
+    shared = []
+    for i in range(3):
+        L.append("sh%d = shared_library(%r, files=[%r])" % (i, fresh('sh'), src()))
+        shared.append('sh%d' % i)
+    fw = []
+    for i in range(rng.randint(4, 6)):
+        kinds = rng.sample(['libs', 'link_options', 'packages'], rng.choice([1, 1, 2, 3]))
+        kw = []
+        if 'libs' in kinds:
+            kw.append('libs=[%s]' % ', '.join(rng.sample(shared, rng.choice([1, 1, 2]))))
+        if 'link_options' in kinds:
+            kw.append('link_options=[%s]' % ', '.join(repr('-Wl,--defsym,%s=%d' % (fresh('y'), k)) for k in range(rng.choice([1, 2]))))
+        if 'packages' in kinds:
+            kw.append('packages=[%s]' % rng.choice(['zlib', 'z3', 'zlib, z3']))
+        L.append("fw%d = static_library(%r, files=[%r], %s)" % (i, fresh('fw'), src(), ', '.join(kw)))
+        fw.append('fw%d' % i)
+    up = []
+    for i in range(rng.randint(2, 3)):
+        deps = rng.sample(fw, rng.randint(2, 3))
+        extra = ", link_options=['-Wl,--defsym,%s=7']" % fresh('y') if rng.random() < 0.5 else ''
+        L.append("up%d = static_library(%r, files=[%r], libs=[%s]%s)" % (i, fresh('up'), src(), ', '.join(deps), extra))
+        up.append('up%d' % i)
+    outs = []
+    for i in range(rng.randint(3, 4)):
+        libs = rng.sample(fw, rng.randint(2, 4))
+        if rng.random() < 0.4:
+            libs.insert(rng.randint(0, len(libs)), rng.choice(up))
+        L.append("ex%d = executable(%r, files=['main.c', %r], libs=[%s])" % (i, fresh('bin/e'), src(), ', '.join(libs)))
+        outs.append('ex%d' % i)
+    L.append("exu = executable(%r, files=['main.c'], libs=[%s])" % (fresh('eu'), ', '.join(rng.sample(up, 2))))
+    for i in range(2):
+        libs = rng.sample(fw + up, rng.randint(2, 3))
+        L.append("dl%d = shared_library(%r, files=[%r], libs=[%s])" % (i, fresh('dl'), src(), ', '.join(libs)))
+        outs.append('dl%d' % i)
+    L.append("install(exu, %s)" % ', '.join(outs))
+    L.append("pkg_config(%r, version='0.4', libs=[%s])" % (fresh('pc'), ', '.join(rng.sample(fw, rng.randint(2, 4)))))
+    L.append("pkg_config(%r, version='0.4', libs=[dl0, %s], auto_fill=False)" % (fresh('pc'), ', '.join(rng.sample(up, 2))))
+    files['build.bfg'] = '\n'.join(L) + '\n'
+    return files
+
+
+def make_project(pdesc):
+    """project description (as stored in replay files) -> files"""
+    if pdesc['variant'] == 'fw':
+        return gen_fw_project(random.Random(pdesc['seed']))
+    return gen_project(random.Random(pdesc['seed']), pdesc['variant'])
+
+
 # ============================================================================= AST scan (the tie for completeness)
 SET_METHODS = {'union', 'intersection', 'difference', 'symmetric_difference', 'copy'}
 UNORDERED_CONSUMERS = {'set', 'frozenset', 'sorted', 'any', 'all', 'len', 'min', 'max', 'sum', 'bool'}
@@ -713,11 +785,25 @@ def stage_system(rep, rng, tier, boost=1):
         for k in range(nslices):
             jobs.append((files, cx[k::nslices], ('make', 'ninja'), None))
             descs.append({'seed': pseed, 'variant': variant})
+    # the link-graph family (several forwarding static libraries per link step): small projects, more hash seeds each
+    n_fw = (2 if tier == 'quick' else 4) * boost
+    fw_seeds = 6 if tier == 'quick' else 32
+    for pi in range(n_fw):
+        pseed = rng.randrange(1 << 30)
+        files = gen_fw_project(random.Random(pseed))
+        cx = [dict(BASE_CTX, seed=str(s)) for s in range(1, fw_seeds)]
+        cx.append(dict(BASE_CTX, seed=str(fw_seeds), regen='full'))
+        cx.append(dict(BASE_CTX, seed=str(fw_seeds + 1), cwd='else', spell='rel'))
+        nslices = 2 if tier == 'quick' else 8
+        for k in range(nslices):
+            jobs.append((files, cx[k::nslices], ('make', 'ninja'), None))
+            descs.append({'seed': pseed, 'variant': 'fw'})
+            rep.count('link-graph-family:contexts', 2 * len(cx[k::nslices]))
     bad = 0
     with ThreadPoolExecutor(max_workers=workers) as ex:
         for desc, (root, res) in zip(descs, ex.map(run_root, jobs)):
             bad += compare_root(rep, desc, root, res)
-    rep.stage('system:differential-configure', projects=n_proj, hash_seeds=n_seeds, roots=len(jobs), failures=bad)
+    rep.stage('system:differential-configure', projects=n_proj, hash_seeds=n_seeds, link_graph_projects=n_fw, link_graph_hash_seeds=fw_seeds + 2, roots=len(jobs), failures=bad)
     return bad
 
 
@@ -1045,6 +1131,135 @@ def oracle_direct(rep, rng, n):
     return bad
 
 
+# ============================================================================= ForwardOptions.recurse
+FWD_CHILD = r'''
+import json, sys
+from bfg9000.options import ForwardOptions, option_list
+
+
+class Lib:      # stands for a library file object: hashed and compared by its name, as file objects are by their path
+    def __init__(self, name):
+        self.name = name
+
+    def __hash__(self):
+        return hash(self.name)
+
+    def __eq__(self, rhs):
+        return isinstance(rhs, Lib) and self.name == rhs.name
+
+
+def evaluate(case):
+    names, graph, top = case
+    objs = []
+    for name, node in zip(names, graph):
+        lib = Lib(name)
+        if node is not None:
+            items, libs = node
+            lib.forward_opts = ForwardOptions(link_options=option_list(*['-Wl,' + i for i in items]),
+                                              compile_options=option_list(*['-D' + i for i in items]),
+                                              packages=list(items), libs=[objs[j] for j in libs])
+        objs.append(lib)
+    r = ForwardOptions.recurse([objs[j] for j in top])
+    return {'link': [i[4:] for i in r.link_options], 'compile': [i[2:] for i in r.compile_options],
+            'packages': list(r.packages), 'libs': [names.index(i.name) for i in r.libs]}
+
+
+if __name__ == '__main__':
+    print(json.dumps([evaluate(c) for c in json.load(sys.stdin)]))
+'''
+
+
+def gen_fwd_case(rng):
+    """(names, graph, top): libraries numbered bottom-up with drawn names (their string hashes order a set); graph[i] is None
+    (no forward_opts: a shared library) or (items it forwards, numbers of the libraries it forwards); top = the libs= list
+    of a link step: two to four libraries, mostly forwarding ones"""
+    n = rng.randint(3, 9)
+    names = []
+    while len(names) < n:
+        nm = 'lib' + ''.join(rng.choice('abcdefghkmnpqrstuvwxyz') for _ in range(rng.randint(1, 5)))
+        if nm not in names:
+            names.append(nm)
+    graph = []
+    for i in range(n):
+        if rng.random() < (0.6 if i < 2 else 0.15):
+            graph.append(None)
+            continue
+        items = ['o%d_%d' % (i, k) for k in range(rng.choice([0, 1, 1, 2]))]
+        graph.append((items, rng.sample(range(i), rng.randint(0, min(3, i)))))
+    fw = [i for i in range(n) if graph[i] is not None]
+    k = rng.randint(1, 4)
+    top = rng.sample(fw, min(len(fw), k)) if rng.random() < 0.8 else rng.sample(range(n), min(n, k))
+    return names, graph, top
+
+
+def stage_forward(rep, rng, n):
+    """ForwardOptions.recurse on generated library graphs.  Direct oracle (no model): the real function, run in child
+    interpreters under different hash seeds, returns the same merged lists for every seed, and they are the depth-first
+    merge in the order of the script's list.  W: the model Misc/Forward.v against the real function."""
+    import subprocess
+    cases = [gen_fwd_case(rng) for _ in range(n)]
+    code = dict(FWD_CHILD=FWD_CHILD)
+    exec(compile(FWD_CHILD.replace("if __name__ == '__main__':", 'if False:'), 'fwd_child', 'exec'), code)
+    here = [code['evaluate'](c) for c in cases]
+    seeds = ['1', '2', '3', '7', '11'] if rep.tier == 'quick' else [str(s) for s in range(1, 24)]
+    runs = {}
+    for s in seeds:
+        e = common.impl_env()
+        e['PYTHONHASHSEED'] = s
+        p = subprocess.run([sys.executable, '-c', FWD_CHILD], input=json.dumps(cases), capture_output=True, text=True, env=e,
+                           timeout=300)
+        if p.returncode != 0:
+            rep.fail('ForwardOptions.recurse cannot be evaluated in a child interpreter: %s' % p.stderr[-400:],
+                     {'obligation': 'oracle:forward_recurse'}, found_input=False)
+            return [], 0
+        runs[s] = json.loads(p.stdout)
+
+    def reference(graph, top):
+        out = {'items': [], 'libs': []}
+
+        def walk(libs):
+            for i in libs:
+                if graph[i] is not None:
+                    out['items'] += graph[i][0]
+                    out['libs'] += graph[i][1]
+                    walk(graph[i][1])
+        walk(top)
+        return out
+    bad = 0
+    calls, impl = [], []
+    for ci, (case, h) in enumerate(zip(cases, here)):
+        names, graph, top = case
+        multi = sum(1 for i in top if graph[i] is not None) >= 2
+        rep.case('fwd:' + json.dumps(case), multi)
+        rep.count('forward:link-step-with-%d-forwarding-libs' % min(3, sum(1 for i in top if graph[i] is not None)))
+        ref = reference(graph, top)
+        want = {'link': ref['items'], 'compile': ref['items'], 'packages': ref['items'], 'libs': ref['libs']}
+        differing = sorted(s for s in seeds if runs[s][ci] != h)
+        if differing or h != want:
+            bad += 1
+            if bad <= 10:
+                rep.fail('ForwardOptions.recurse on the libraries %r of the graph %r (names %r): %s' % (
+                    top, graph, names,
+                    'the merged lists depend on the hash seed: %r under PYTHONHASHSEED=0, %r under PYTHONHASHSEED=%s'
+                    % (h, runs[differing[0]][ci], differing[0]) if differing else
+                    'the merged lists %r are not the depth-first merge in list order %r' % (h, want)),
+                    {'kind': 'forward_recurse', 'case': case, 'hashseed0': h,
+                     'other': {s: runs[s][ci] for s in differing[:3]}, 'expected': want}, classes=())
+        fuel = len(graph) + 1
+        calls.append(('forward.recurse', [fuel, [None if x is None else [[x[0], x[1]]] for x in graph], top]))
+        impl.append((h['link'], h['libs']))
+        calls.append(('forward.bottom_up', [[None if x is None else [[x[0], x[1]]] for x in graph]]))
+        impl.append(True)
+
+    def dec_f(name, raw):
+        if name == 'forward.bottom_up':
+            return common.d_bool(raw)
+        return ([common.d_str(x) for x in raw[0]], list(raw[1]))
+    dis = common.compare_model(rep, 'W:forward_recurse', calls, impl, dec_f, vm_limit=30)
+    rep.stage('oracle:forward_recurse', cases=len(cases), hash_seeds=len(seeds) + 1, failures=bad)
+    return dis, bad
+
+
 # ============================================================================= driver
 def run(rep):
     rng = random.Random(rep.seed)
@@ -1056,6 +1271,9 @@ def run(rep):
     ok_scan, detail = stage_scan(rep)
     stage_languages_functional(rep)
     bad = oracle_direct(rep, rng, n)
+    fdis, fbad = stage_forward(rep, rng, n)
+    dis += fdis
+    bad += fbad
     bad += stage_system(rep, rng, rep.tier)
     stage_fs_order(rep, rng)
     broken = []
@@ -1079,6 +1297,6 @@ def replay(rep, path):
     if 'context' not in r:
         return run(rep)
     pd = r['project']
-    files = gen_project(random.Random(pd['seed']), pd['variant'])
+    files = make_project(pd)
     root, res = run_root((files, [r['context']], (r['backend'],), None))
     compare_root(rep, pd, root, res)
